@@ -40,6 +40,21 @@ Theorem C06_smawk_shape : forall (Nm : Num) eqT P (fs : list (frag Nm)) lws mini
   smawk_minima Nm eqT P fs lws = Some minima -> minima_ok Nm minima (length fs).
 Proof. exact smawk_minima_ok. Qed.
 
+(* the per-case check: the boolean [chain_b] that L2 runs on the (offset, length) pairs
+   read off the implementation's slices accepts exactly the ordered partitions into
+   non-empty lines *)
+From TW Require Import OptB.
+Theorem C06_checker_sound : forall (A : Type) (xs : list A) rs,
+  chain_b (length xs) 0 rs = true ->
+  concat (map (fun '(s, e) => slice xs s e) rs) = xs /\
+  Forall (fun l => l <> []) (map (fun '(s, e) => slice xs s e) rs).
+Proof.
+  intros A xs rs H. apply chain_b_spec in H.
+  destruct (slice_chain_concat A xs rs 0%nat (length xs) H (le_n _)) as [_ [Hc Hne]].
+  split; [rewrite Hc; apply slice_all|exact Hne].
+Qed.
+
+Print Assumptions C06_checker_sound.
 Print Assumptions C06_optimal_fit_smawk.
 Print Assumptions C06_smawk_shape.
 Print Assumptions C06_first_fit.
